@@ -18,8 +18,14 @@ var c05Defs = map[string]string{
 	"@o": "{\n\t\"k\": 1\n}",
 	"@p": "{\n\t\"q\": @s\n}",
 	"@q": "{\n\t\"r\": @p // {optional: true}\n}",
+	// definitions that refer onwards through the other kinds of reference
+	"@r": "{} // {additionalProperties: \"@s\"}",
+	"@t": `"t" // {type: "@s"}`,
+	"@v": "{ // {allOf: \"@o\"}\n\t\"own\": 1\n}",
+	"@w": "{\n\t\"w\": @w, // {optional: true}\n\t\"u\": @s | @o\n}",
 }
-var c05Refs = map[string][]string{"@s": nil, "@o": nil, "@p": {"@s"}, "@q": {"@p"}}
+var c05Refs = map[string][]string{"@s": nil, "@o": nil, "@p": {"@s"}, "@q": {"@p"}, "@r": {"@s"}, "@t": {"@s"}, "@v": {"@o"}, "@w": {"@w", "@s", "@o"}}
+var c05All = []string{"@s", "@o", "@p", "@q", "@r", "@t", "@v", "@w"}
 var c05Extras = map[string]string{"@z1": `1`, "@z2": "{\n\t\"zz\": \"a\"\n}", "@z3": `1 // {or: [{type: "integer", min: 0}, {type: "boolean"}]}`}
 
 // c05Site: one reference site = a value text (single element, possibly with an
@@ -34,8 +40,8 @@ type c05Site struct {
 
 func c05Sites() []c05Site {
 	var out []c05Site
-	all := []string{"@s", "@o", "@p", "@q"}
-	objs := []string{"@o", "@p", "@q"}
+	all := c05All
+	objs := []string{"@o", "@p", "@q", "@r", "@v", "@w"}
 	for _, x := range all {
 		out = append(out, c05Site{Pos: "value-shortcut", Text: x, Names: []string{x}})
 		out = append(out, c05Site{Pos: "additionalProperties", Text: "{}", Ann: fmt.Sprintf(`{additionalProperties: %q}`, x), Names: []string{x}})
@@ -47,6 +53,9 @@ func c05Sites() []c05Site {
 	}
 	out = append(out, c05Site{Pos: "key-shortcut", Text: "{\n\t@s: 1\n}", Names: []string{"@s"}, Multi: true})
 	out = append(out, c05Site{Pos: "type-rule", Text: `"v"`, Ann: `{type: "@s"}`, Names: []string{"@s"}})
+	out = append(out, c05Site{Pos: "type-rule", Text: `"v"`, Ann: `{type: "@t"}`, Names: []string{"@t"}})
+	out = append(out, c05Site{Pos: "or-string-item", Text: `"v"`, Ann: `{or: ["@t", "@o"]}`, Names: []string{"@t", "@o"}})
+	out = append(out, c05Site{Pos: "value-shortcut-nullable", Text: "@w", Ann: `{nullable: true}`, Names: []string{"@w"}})
 	out = append(out, c05Site{Pos: "or-string-item", Text: `"v"`, Ann: `{or: ["@s", "integer"]}`, Names: []string{"@s"}})
 	out = append(out, c05Site{Pos: "or-type-item", Text: `"v"`, Ann: `{or: [{type: "@s"}, {type: "integer"}]}`, Names: []string{"@s"}})
 	for _, x := range objs {
@@ -95,6 +104,8 @@ func (r c05Root) text() string {
 		return "[\n\t[\n" + r.Sites[0].render("\t\t", "", "") + "\n\t]\n]"
 	case "two-properties":
 		return "{\n" + r.Sites[0].render("\t", `"a": `, ",") + "\n" + r.Sites[1].render("\t", `"b": `, "") + "\n}"
+	case "three-properties":
+		return "{\n" + r.Sites[0].render("\t", `"a": `, ",") + "\n" + r.Sites[1].render("\t", `"b": `, ",") + "\n" + r.Sites[2].render("\t", `"c": `, "") + "\n}"
 	case "property-and-item":
 		return "{\n" + r.Sites[0].render("\t", `"a": `, ",") + "\n\t\"arr\": [\n" + r.Sites[1].render("\t\t", "", "") + "\n\t]\n}"
 	}
@@ -256,22 +267,52 @@ func keysOf(m map[string]bool) []string {
 	return out
 }
 
-func c05Roots() []c05Root {
+// c05Closure: the names reachable from the given ones when every definition is registered.
+func c05Closure(names []string) []string {
+	seen := map[string]bool{}
+	var out []string
+	queue := append([]string{}, names...)
+	for len(queue) > 0 {
+		n := queue[0]
+		queue = queue[1:]
+		if seen[n] {
+			continue
+		}
+		seen[n] = true
+		out = append(out, n)
+		queue = append(queue, c05Refs[n]...)
+	}
+	sortStrings(out)
+	return out
+}
+
+func c05Roots(thorough ...bool) []c05Root {
 	sites := c05Sites()
 	var out []c05Root
 	for _, s := range sites {
 		out = append(out, c05Root{"root", []c05Site{s}}, c05Root{"property", []c05Site{s}}, c05Root{"item", []c05Site{s}},
 			c05Root{"property-under-type-like-key", []c05Site{s}}, c05Root{"nested-under-type-like-key", []c05Site{s}}, c05Root{"item-in-item", []c05Site{s}})
 	}
-	for _, a := range sites {
-		for _, b := range sites {
-			out = append(out, c05Root{"two-properties", []c05Site{a, b}})
-		}
-	}
+	deep := len(thorough) > 0 && thorough[0]
 	for i, a := range sites {
 		for j, b := range sites {
-			if (i+j)%3 == 0 {
+			if deep || (i+j)%4 == 0 || a.Pos != b.Pos {
+				out = append(out, c05Root{"two-properties", []c05Site{a, b}})
+			}
+			if deep || (i+j)%3 == 0 {
 				out = append(out, c05Root{"property-and-item", []c05Site{a, b}})
+			}
+		}
+	}
+	if deep {
+		// three sites: every pair of sites next to every site of a different position
+		for _, a := range sites {
+			for _, b := range sites {
+				for _, c := range sites {
+					if c.Pos != a.Pos && c.Pos != b.Pos && a.Pos <= b.Pos {
+						out = append(out, c05Root{"three-properties", []c05Site{a, b, c}})
+					}
+				}
 			}
 		}
 	}
@@ -279,17 +320,16 @@ func c05Roots() []c05Root {
 }
 
 func init() {
-	all := []string{"@s", "@o", "@p", "@q"}
 	Register(&Prop{
 		ID:        "C05",
 		Technique: "bounded exhaustive enumeration of schema projects x every subset of type definitions registered or withheld x unreferenced extra types, judged by a reachability reference over the model",
-		Rule:      "roots with one or two reference sites from the 8 positions (value shortcut, @a | @b, key shortcut, type, or string item, or {type} item, allOf scalar and list, additionalProperties) at the root, in a property, in an array item; 4 closed definitions (string, object, object->string, object->object->string) x all 16 registered subsets x {0,1,2} unreferenced valid types; clauses: UsedUserTypes() = names in the root text without duplicates; 1302 naming a missing type iff a name reachable through registered definitions is unregistered; extras change no observable; non-trivial = projects outside the excluded region",
+		Rule:      "roots with one or two reference sites from the 8 positions (value shortcut, @a | @b, key shortcut, type, or string item, or {type} item, allOf scalar and list, additionalProperties) at the root, in a property, in an array item; 8 closed definitions (string, object, object->string, object->object->string, and types referring onwards through additionalProperties, type, allOf, a self reference and a choice) x every subset of the reachable closure registered or withheld x {0,1,2} unreferenced valid types; thorough: all pairs and three-site roots; clauses: UsedUserTypes() = names in the root text without duplicates; 1302 naming a missing type iff a name reachable through registered definitions is unregistered; extras change no observable; non-trivial = projects outside the excluded region",
 		Bounds: func(tier string) map[string]any {
-			return map[string]any{"sites": len(c05Sites()), "roots": len(c05Roots()), "definitions": 4}
+			return map[string]any{"sites": len(c05Sites()), "roots": len(c05Roots()), "definitions": len(c05All)}
 		},
 		Run: func(w *core.W) {
-			var i int64
-			for _, r := range c05Roots() {
+			var i, states int64
+			for _, r := range c05Roots(w.Thorough()) {
 				i++
 				if !w.Mine(i) {
 					continue
@@ -297,21 +337,24 @@ func init() {
 				if w.OverBudget() {
 					return
 				}
-				for mask := 0; mask < 16; mask++ {
+				// every subset of the types the root can reach is registered or withheld
+				cl := c05Closure(r.names())
+				for mask := 0; mask < 1<<len(cl); mask++ {
 					var reg []string
-					for b, n := range all {
+					for b, n := range cl {
 						if mask&(1<<b) != 0 {
 							reg = append(reg, n)
 						}
 					}
 					c05Case(w, r, reg)
+					states++
 				}
 				if i%211 == 1 {
 					w.Sample(r.text())
 				}
 			}
+			w.S.States += states
 			if w.Shard == 0 {
-				w.S.States += i * 16
 				w.Count("roots", i)
 			}
 		},
